@@ -130,7 +130,7 @@ func newSim(nNodes int, clientSpecs []clientSpec) *sim {
 		}
 	}
 	rafthttp.VerifSendHook = func(from types.ID, m raftpb.Message) { s.atSend(int(from)-1, m) }
-	rt.FreeLockHook = func(obj interface{}) { s.atLock() }
+	rt.SetFreeLockHook(func(obj interface{}) { s.atLock() })
 	peers := make([]string, nNodes)
 	for i := range peers {
 		peers[i] = fmt.Sprintf("http://127.0.0.1:%d", 20000+i)
@@ -762,7 +762,7 @@ func (s *sim) close() {
 		}
 	}
 	s.openGate()
-	rt.FreeLockHook = nil
+	rt.SetFreeLockHook(nil)
 	fileutil.VerifSyncHook = nil
 	rafthttp.VerifSendHook = nil
 	os.RemoveAll(s.root)
